@@ -182,6 +182,10 @@ func c05(c *ev.Ctx) {
 		check(tag+"/while/"+in.name, `while (`+x+`) { return "T"; } return "F";`, obj, tf(in.truth), nil)
 		check(tag+"/for/"+in.name, `for (`+x+`) { return "T"; } return "F";`, obj, tf(in.truth), nil)
 		check(tag+"/ternary/"+in.name, `return `+x+` ? "T" : "F";`, obj, tf(in.truth), nil)
+		check(tag+"/cond-is-ternary-1/"+in.name, `if (hv(0) ? `+x+` : true) { return "T"; } return "F";`, obj, tf(in.truth), nil)
+		check(tag+"/cond-is-ternary-2/"+in.name, `return (hv(0) ? `+x+` : false) ? "T" : "F";`, obj, tf(in.truth), nil)
+		check(tag+"/cond-is-ternary-3/"+in.name, `return (hv(1) ? true : `+x+`) ? "T" : "F";`, obj, tf(in.truth), nil)
+		check(tag+"/cond-is-ternary-4/"+in.name, `while (hv(1) ? false : `+x+`) { return "T"; } return "F";`, obj, tf(in.truth), nil)
 		check(tag+"/and-left/"+in.name, `return `+x+` && true;`, obj, bs(in.truth), nil)
 		check(tag+"/and-right/"+in.name, `return true && `+x+`;`, obj, bs(in.truth), nil)
 		check(tag+"/or-left/"+in.name, `return `+x+` || false;`, obj, bs(in.truth), nil)
